@@ -173,7 +173,8 @@ class TypeGen:
                 return {"k": "newtype", "i": d(st.integers(0, len(self.prog["newtypes"]) - 1))}
             return self.newtype()
         if k == "std":
-            t_ = {"k": "std", "t": pick(d, sorted(x for x in STD_VALID if x != "ver" or self.cfg.get("std_multi")))}
+            # "amount" (the only kind whose source is a union of JSON types: schema {"type": [...]}) is drawn three times as often
+            t_ = {"k": "std", "t": pick(d, sorted(x for x in STD_VALID if x != "ver" or self.cfg.get("std_multi")) + ["amount", "amount"])}
             if self.cfg["constraints"] and t_["t"] not in ("ver", "amount") and chance(d, 0.25):
                 # constraints given from outside the converted type: they apply to its source datum (string / number)
                 c = self.constraints("float" if t_["t"] == "decimal" else "str")
